@@ -384,6 +384,79 @@ func arbitraryUserData(rnd *hlib.Rand, g *Group) {
 	}
 }
 
+// clusterJoin: clusters of members with pairwise disjoint topic sets reach a fixed point, then a member joins that
+// subscribes to a superset (all topics, or the topics of several clusters): it first absorbs partitions from
+// several clusters, becomes the most loaded member and has to hand partitions back through the movement
+// bookkeeping (getTheActualPartitionToBeMoved).  Non-identical subscriptions; the pairwise-swap oracle applies.
+func clusterJoin(rnd *hlib.Rand) int {
+	g := &Group{}
+	K := rnd.Range(2, 3)
+	tid, mid := 0, 0
+	var clusterTopics [][]string
+	for k := 0; k < K; k++ {
+		var ts []string
+		for j := rnd.Range(1, 2); j > 0; j-- {
+			name := "t" + strconv.Itoa(tid)
+			tid++
+			ts = append(ts, name)
+			g.Topics = append(g.Topics, Topic{Name: name, Parts: seqParts(rnd.Range(3, 8))})
+		}
+		clusterTopics = append(clusterTopics, ts)
+	}
+	// members of the clusters interleaved, so that the id order does not follow the clusters
+	per := rnd.Range(1, 3)
+	for r := 0; r < per; r++ {
+		for k := 0; k < K; k++ {
+			g.Members = append(g.Members, Member{Name: "m" + strconv.Itoa(mid), Topics: append([]string(nil), clusterTopics[k]...), UD: UserData{Kind: "-"}})
+			mid++
+		}
+	}
+	calls := 0
+	gen := rnd.Range(1, 5)
+	a, v := doPlan("sticky", "fresh", g)
+	calls++
+	if a == nil || v["valid"] != "1" {
+		return calls
+	}
+	// re-plan until the plan is a fixed point of the strategy (at most three rounds)
+	for round := 0; round < 3; round++ {
+		next := g.clone()
+		feedBack(next, a, gen)
+		gen++
+		b, w := doPlan("sticky", "same", next)
+		calls++
+		run.Count("sticky-step-same")
+		if b == nil || w["valid"] != "1" {
+			return calls
+		}
+		g, a = next, b
+		if w["same"] == "1" {
+			break
+		}
+	}
+	next := g.clone()
+	feedBack(next, a, gen)
+	j := Member{Name: "m" + strconv.Itoa(mid), UD: UserData{Kind: "-"}}
+	if rnd.Chance(1, 4) {
+		j.Name = "a" + j.Name
+	}
+	for k := 0; k < K; k++ {
+		if k < 2 || rnd.Bool() {
+			j.Topics = append(j.Topics, clusterTopics[k]...)
+		}
+	}
+	next.Members = append(next.Members, j)
+	doPlan("sticky", "join", next)
+	run.Count("sticky-step-join-superset")
+	return calls + 1
+}
+
+// the lead's pairwise-swap scenario (m4 joins with all topics; m1, m3 on t0 only; m0, m2 on t1, t2)
+func supersetJoinWitness() *Group {
+	return parseGroup("m0:t1,t2:g3:t1/2,t1/6,t1/5,t2/2,t2/3,t2/1;m1:t0:g3:t0/5,t0/2,t0/1;m2:t1,t2:g3:t1/3,t1/1,t1/0,t1/4,t2/0,t2/4;m3:t0:g3:t0/4,t0/3,t0/0;m4:t0,t1,t2:-:",
+		"t0:0,1,2,3,4,5;t1:0,1,2,3,4,5,6;t2:0,1,2,3,4")
+}
+
 // the F12 witness of DESIGN section 9
 func f12Witness() *Group {
 	return parseGroup("A:t2:g1:t1/0;B:t1:g2:t1/0,t1/1,t1/2;C:t1:g2:", "t1:0,1,2;t2:0,1,2")
